@@ -20,7 +20,7 @@
 //    the stand-ins are straight-line code on whole arrays / 64-bit lanes, the
 //    message-hash stand-in returns a constant Q (00..00 when signing, FF..FF
 //    when verifying: the cheapest coefficient vectors, 255 resp. 510 chain
-//    steps) or, thorough tier, a constant with one symbolic byte, and all
+//    steps), and all
 //    comparisons use concrete indices (symbolic indices into expanded arrays
 //    make the SAT problem 10x harder).
 //  * Harnesses that quantify over ALL signature strings obtain, in native
@@ -187,9 +187,9 @@ def_hn!(hn_free, MODE_FREE);
 def_hn!(hn_00, 0x00);
 // Q = FF..FF: cheapest verification (only the two checksum chains run: 255 + 255 steps)
 def_hn!(hn_ff, 0xFF);
-// Q = 01..01 except one symbolic byte (signing side, thorough tier)
+// Q = 01..01 except one symbolic byte (signing side; experimental, not posed: CBMC gives up)
 def_hn!(hn_lo, 0x101);
-// Q = FE..FE except one symbolic byte (verification side, thorough tier)
+// Q = FE..FE except one symbolic byte (verification side; experimental, not posed)
 def_hn!(hn_hi, 0x1FE);
 
 // Under Kani ref_chain (below) is replaced by this closed form of
